@@ -28,6 +28,7 @@ type litterCase struct {
 	Creates  []string          `json:"creates"`   // tables created by the program
 	LockOn   string            `json:"lock_on"`   // table a competing holder has locked (timeout endings)
 	LongName bool              `json:"long_name"` // one table has a 236-249 byte file name (run with a short wait timeout)
+	Preload  int               `json:"preload"`   // the first Preload statements are not in the program but in ./csvqrc (run before it, same transaction)
 }
 
 var cellPool = []string{"a", "b", "hello", "x y", "", "42", "3.5", "Z"}
@@ -163,7 +164,36 @@ func genCase(t *rapid.T) litterCase {
 			c.Stmts = kept
 		}
 	}
+	if !c.LongName && !strings.HasPrefix(c.Ending, "timeout_") && c.Ending != "vanish_while_waiting" && fw.Pct(t, "preload", 22) {
+		// csvq executes the statements of a csvqrc file (here: the one in the current directory) before the
+		// program, in the same transaction and before the command-line flags are applied; an EXIT there would
+		// not end the run, so only statements in front of the first EXIT are moved
+		max := len(c.Stmts) - 1
+		for i, st := range c.Stmts {
+			if strings.HasPrefix(st, "EXIT") && i < max {
+				max = i
+			}
+		}
+		if max >= 1 {
+			c.Preload = fw.Range(t, "preloadN", 1, max)
+		}
+	}
 	return c
+}
+
+const rcName = "csvqrc"
+
+// writeCase writes the tables and, for preload cases, the csvqrc file of the current directory.
+func writeCase(dir string, c litterCase) {
+	_ = run.WriteFiles(dir, c.Tables)
+	old := time.Now().Add(-time.Hour)
+	for n := range c.Tables {
+		_ = os.Chtimes(filepath.Join(dir, n), old, old)
+	}
+	if c.Preload > 0 {
+		_ = os.WriteFile(filepath.Join(dir, rcName), []byte(strings.Join(c.Stmts[:c.Preload], ";\n")+";\n"), 0644)
+		_ = os.Chtimes(filepath.Join(dir, rcName), old, old)
+	}
 }
 
 var seq int64
@@ -219,11 +249,7 @@ func (r runner) run(dir string, c litterCase, env []string, extraArgs ...string)
 			}
 			_ = os.Remove(filepath.Join(dir, e.Name()))
 		}
-		_ = run.WriteFiles(dir, c.Tables)
-		old := time.Now().Add(-time.Hour)
-		for n := range c.Tables {
-			_ = os.Chtimes(filepath.Join(dir, n), old, old)
-		}
+		writeCase(dir, c)
 		for n := range keep {
 			_ = os.WriteFile(filepath.Join(dir, n), nil, 0600)
 		}
@@ -234,7 +260,7 @@ func (r runner) run(dir string, c litterCase, env []string, extraArgs ...string)
 
 func (r runner) runOnce(dir string, c litterCase, to time.Duration, env []string, extraArgs ...string) run.CLIRes {
 	src := filepath.Join(r.home, fmt.Sprintf("prog-%d.sql", atomic.AddInt64(&seq, 1)))
-	_ = os.WriteFile(src, []byte(strings.Join(c.Stmts, ";\n")+";\n"), 0644)
+	_ = os.WriteFile(src, []byte(strings.Join(c.Stmts[c.Preload:], ";\n")+";\n"), 0644)
 	defer os.Remove(src)
 	args := []string{"-q", "-s", src}
 	if c.Out != "" {
@@ -251,12 +277,8 @@ func setup(c litterCase, tag string) string {
 	dir := filepath.Join(fw.WorkDir(), fmt.Sprintf("c11-%d-%s", atomic.AddInt64(&seq, 1), tag))
 	_ = os.RemoveAll(dir)
 	_ = os.MkdirAll(dir, 0755)
-	_ = run.WriteFiles(dir, c.Tables)
-	// age the files so that a rewrite is visible in mtime
-	old := time.Now().Add(-time.Hour)
-	for n := range c.Tables {
-		_ = os.Chtimes(filepath.Join(dir, n), old, old)
-	}
+	// files are aged so that a rewrite is visible in mtime
+	writeCase(dir, c)
 	return dir
 }
 
@@ -335,6 +357,9 @@ var sigNums = map[string]int{"INT": 2, "TERM": 15, "QUIT": 3}
 
 func checkCase(c litterCase) (fw.Outcome, *fw.Violation) {
 	o := fw.Outcome{Classes: []string{"ending=" + c.Ending, fmt.Sprintf("readonly=%v", c.ReadOnly), "out=" + c.Out}}
+	if c.Preload > 0 {
+		o.Classes = append(o.Classes, "preload_csvqrc")
+	}
 	if c.LongName {
 		o.Classes = append(o.Classes, "long_table_name")
 	}
@@ -346,6 +371,9 @@ func checkCase(c litterCase) (fw.Outcome, *fw.Violation) {
 	_ = os.MkdirAll(home, 0755)
 	r := runner{bin: bin, home: home}
 	prog := strings.Join(c.Stmts, ";\n") + ";"
+	if c.Preload > 0 {
+		prog = fmt.Sprintf("-- the first %d statement(s) are in ./csvqrc (preload), the rest is the program\n", c.Preload) + prog
+	}
 
 	// reference run without interference: committed contents of created tables, list of points
 	dir := setup(c, "ref")
